@@ -22,7 +22,7 @@ BOUNDS = {
     'quick': {'configurations (char window, char n, type window, type n)': CFGS_QUICK, 'corpora': ['abc-ba', 'mixed'], 'dictionaries': sorted(DICTS),
               'learner coefficients': 'concrete values drawn from VERIF_SEED (incl. exact zeros, tiny and large magnitudes); every order of the learner\'s label list',
               'evaluation text': '1..3 symbolic characters over {corpus characters, any other scalar value}'},
-    'thorough': {'configurations': 'all (cw, cn, tw, tn) in {0..3}^4', 'corpora': ['abc-ba', 'mixed', 'ab-c'], 'dictionaries': sorted(DICTS), 'evaluation text': '1..4 symbolic characters',
+    'thorough': {'configurations': 'all (cw, cn, tw, tn) in {0..3}^4 (type window 3 with type n-grams only for three char sides) on corpus abc-ba with dictionary a-ab and texts of 1..2 characters; the quick configuration list on', 'corpora': ['abc-ba', 'mixed', 'ab-c'], 'dictionaries': sorted(DICTS), 'evaluation text': '1..4 symbolic characters',
                  'learner coefficients': 'three seeds'},
 }
 OUTSIDE = ('the learner (liblinear) is a stub returning harness-chosen coefficients: coefficients are concrete representatives, not symbolic (floating-point solving of the '
@@ -37,22 +37,41 @@ TECHNIQUE = 'bounded symbolic execution of rustc MIR (mirsym + z3): evaluation t
 
 
 def jobs(tier, seed):
-    cfgs = CFGS_QUICK if tier == 'quick' else [(a, b, c, d) for a in range(4) for b in range(4) for c in range(4) for d in range(4) if not (c == 3 and d > 0 and (a, b) not in ((3, 3), (1, 1), (2, 3)))]
-    corpora = ['abc-ba', 'mixed'] if tier == 'quick' else ['abc-ba', 'mixed', 'ab-c']
-    seeds = [seed] if tier == 'quick' else [seed, seed + 1, seed + 2]
     js = []
-    for cfg in cfgs:
-        for cn in corpora:
-            for dn in sorted(DICTS):
-                if tier == 'quick' and dn == 'words' and cn != 'abc-ba':
-                    continue
-                for sd in seeds:
-                    for n in range(1, (3 if tier == 'quick' else 4) + 1):
-                        if tier == 'quick' and n == 3 and not (cfg in ((2, 2, 1, 1), (1, 1, 2, 2)) and dn == 'a-ab' and cn == 'abc-ba'):
+
+    def add(cfg, cn, dn, sd, n):
+        js.append({'name': 'train/%s/%s/%s/s%d/n%d' % ('-'.join(map(str, cfg)), cn, dn, sd, n), 'cfg': list(cfg), 'corpus': cn, 'dict': dn, 'seed': sd, 'n': n})
+    if tier == 'quick':
+        for cfg in CFGS_QUICK:
+            for cn in ('abc-ba', 'mixed'):
+                for dn in sorted(DICTS):
+                    if dn == 'words' and cn != 'abc-ba':
+                        continue
+                    for n in (1, 2, 3):
+                        if n == 3 and not (cfg in ((2, 2, 1, 1), (1, 1, 2, 2)) and dn == 'a-ab' and cn == 'abc-ba'):
                             continue
-                        js.append({'name': 'train/%s/%s/%s/s%d/n%d' % ('-'.join(map(str, cfg)), cn, dn, sd, n), 'cfg': list(cfg), 'corpus': cn, 'dict': dn, 'seed': sd, 'n': n})
-    js.sort(key=lambda j: -j['n'])
-    return js
+                        add(cfg, cn, dn, seed, n)
+    else:
+        # (a) the whole grid of window / n-gram sizes 0..3 (type window 3 with type n-grams only where the 8^6 table is affordable) on one corpus and dictionary
+        grid = [(a, b, c, d) for a in range(4) for b in range(4) for c in range(4) for d in range(4) if not (c == 3 and d > 0 and (a, b) not in ((3, 3), (1, 1), (2, 3)))]
+        for cfg in grid:
+            for n in (1, 2):
+                add(cfg, 'abc-ba', 'a-ab', seed, n)
+        # (b) the quick configurations on every corpus and dictionary, three coefficient seeds, texts up to 4 characters
+        for cfg in CFGS_QUICK:
+            for cn in ('abc-ba', 'mixed', 'ab-c'):
+                for dn in sorted(DICTS):
+                    for sd in (seed, seed + 1, seed + 2):
+                        for n in (1, 2, 3, 4):
+                            if n == 4 and sd != seed:
+                                continue
+                            add(cfg, cn, dn, sd, n)
+    seen = set(); out = []
+    for j in js:
+        if j['name'] not in seen:
+            seen.add(j['name']); out.append(j)
+    out.sort(key=lambda j: -j['n'])
+    return out
 
 
 def train_and_build(e, prog, job):
